@@ -10,7 +10,7 @@ from . import adapter, fscopes, layout, par, tlc
 from .common import Check
 from .c07 import classify
 
-OPK_FREE = '{"blank", "comment", "split", "join", "eol", "case", "trail"}'
+OPK_FREE = '{"blank", "comment", "split", "join", "eol", "case", "trail", "tcomment", "flush"}'
 
 
 def layouts_for(n, maxops, opkinds, nsim=None, seed=0, fixed_only=False):
